@@ -9,6 +9,7 @@ pub mod c04;
 pub mod c05;
 pub mod c06;
 pub mod c07;
+pub mod c08;
 pub mod c09;
 pub mod c10;
 pub mod c11;
@@ -21,20 +22,56 @@ pub mod c17;
 pub mod c18;
 
 pub fn all() -> &'static [PropDef] {
-    static ALL: &[PropDef] = &[c01::DEF, c02::DEF, c03::DEF, c04::DEF, c05::DEF, c06::DEF, c07::DEF, c09::DEF, c10::DEF, c11::DEF, c12::DEF, c13::DEF, c14::DEF, c15::DEF, c16::DEF, c17::DEF, c18::DEF];
+    static ALL: &[PropDef] = &[c01::DEF, c02::DEF, c03::DEF, c04::DEF, c05::DEF, c06::DEF, c07::DEF, c08::DEF, c09::DEF, c10::DEF, c11::DEF, c12::DEF, c13::DEF, c14::DEF, c15::DEF, c16::DEF, c17::DEF, c18::DEF];
     ALL
 }
 
-/// A worker died (signal / abort).  Properties that attribute process death
-/// to the in-flight case (C08) handle it here; others report "inconclusive".
+/// A worker died (signal / abort).  For C08 the death is attributed to the in-flight case by re-running the
+/// worker in careful mode (every case is written to a file before it runs); an out-of-memory abort is inconclusive.
+/// Other properties report "inconclusive".
 pub fn worker_died(
-    _id: &str,
-    _rundir: &str,
-    _profile: &str,
-    _k: usize,
-    _stderr: &str,
-    _viol: &mut Vec<(String, Violation)>,
+    id: &str,
+    rundir: &str,
+    profile: &str,
+    k: usize,
+    stderr: &str,
+    viol: &mut Vec<(String, Violation)>,
     _known: &[KnownFinding],
+    rerun: &dyn Fn(&str) -> bool,
 ) -> bool {
-    false
+    if id != "C08" {
+        return false;
+    }
+    if stderr.contains("memory allocation of") {
+        return false; // the statement's proviso: allocation sizes are modest; the address-space cap was hit
+    }
+    let note = format!("{}/careful-{}-{}.txt", rundir, profile, k);
+    let _ = std::fs::remove_file(&note);
+    let died_again = rerun(&note);
+    if !died_again {
+        return false;
+    }
+    let text = std::fs::read_to_string(&note).unwrap_or_default();
+    let mut direct = false;
+    let mut choices: Vec<u32> = Vec::new();
+    for l in text.lines() {
+        if let Some(v) = l.strip_prefix("mode=") {
+            direct = v.trim() == "direct";
+        }
+        if let Some(v) = l.strip_prefix("choices=") {
+            choices = v.split(',').filter_map(|x| x.trim().parse().ok()).collect();
+        }
+    }
+    let what = stderr.lines().rev().find(|l| !l.trim().is_empty()).unwrap_or("").to_string();
+    viol.push((
+        profile.to_string(),
+        Violation {
+            sig: format!("abort: the process died while running a case ({})", normalise(&what).chars().take(80).collect::<String>()),
+            detail: format!("worker {}-{} died twice on this case; last stderr line: {}", profile, k, what),
+            choices,
+            direct,
+            render: "(the case kills the process; replay it with ./check C08 --replay <file>)".to_string(),
+        },
+    ));
+    true
 }
